@@ -4,9 +4,12 @@ CONSTANTS
   Design = "filepos"
   ReadRule = "written"
   UnsetSpace <- AllUnset
+  ScalarRule = "fill_is_unset"
+  DfltSpace <- AllDflt
   LayoutSpace <- Layouts
   D = 0
 INVARIANT RoundTrip
+INVARIANT ScalarRoundTrip
 INVARIANT SpeciesExact
 CONSTRAINT EmitRead
 CHECK_DEADLOCK FALSE
